@@ -3,24 +3,29 @@
 (* AshProtocol -> fake serial line -> simulated ASH NCP + EZSP NCP).          *)
 EXTENDS Bringup, Json, IOUtils, TLCExt, TLC
 Traces == JsonDeserialize(IOEnv.TRACE_FILE)
-VARIABLES ncpVer, phase, bad, tid, l
-tvars == <<ncpVer, phase, bad, tid, l>>
+VARIABLES ncpVer, phase, bad, rs, tid, l
+tvars == <<ncpVer, phase, bad, rs, tid, l>>
 Tr == Traces[tid]
 TInit == /\ tid \in 1 .. Len(Traces) /\ l = 2 /\ Traces[tid][1].a = "cfg"
-         /\ ncpVer = Traces[tid][1].ncpver /\ phase = "fresh" /\ bad = {}
+         /\ ncpVer = Traces[tid][1].ncpver /\ phase = "fresh" /\ bad = {} /\ rs = 0
 Flag(c, name) == IF c THEN bad ELSE bad \cup {name}
 (* every clause is an enabling condition: a run that breaks one is not a behaviour (it gets stuck there) *)
 TNext ==
   /\ l <= Len(Tr)
   /\ LET e == Tr[l] IN
-       \/ /\ e.a = "ncpreset" /\ phase' = "fresh" /\ UNCHANGED <<ncpVer, bad>>     \* the NCP (re)started: boot or host RST
+       \/ /\ e.a = "ncpreset" /\ phase' = "fresh" /\ rs' = rs + 1 /\ UNCHANGED <<ncpVer, bad>>     \* the NCP (re)started: boot or host RST
+       \/ /\ e.a = "stagestart" /\ UNCHANGED <<ncpVer, phase, bad, rs>>
        \/ /\ e.a = "ezsp_rx"                                                      \* a frame reached the NCP's EZSP layer
           /\ phase' = PhaseAfter(ncpVer, phase, e.fmt, e.id, e.desired)
           /\ phase' \in {"fresh", "queried", "native"}          \* FirstQueryLegacy / Confirmed / FramedForVersion
-          /\ UNCHANGED <<ncpVer, bad>>
+          /\ UNCHANGED <<ncpVer, bad, rs>>
        \/ /\ e.a = "result"                                                       \* a bring-up stage ended at the host
           /\ e.exc = ""                                                           \* ... without an exception
           /\ (e.stage \in {"startup", "version"} => (e.version = ncpVer /\ e.tables = TablesFor(ncpVer) /\ phase = "native"))
+          \* a start-up / an explicit reset performs the reset handshake: the NCP was reset (by the host's RST or, announced by itself,
+          \* on its own) since the connection was opened or the previous start-up / reset ended
+          /\ (e.stage \in {"startup", "reset"} => rs >= 1)
+          /\ rs' = IF e.stage \in {"startup", "reset"} THEN 0 ELSE rs
           /\ UNCHANGED <<ncpVer, phase, bad>>
   /\ l' = l + 1 /\ UNCHANGED tid
 TSpec == TInit /\ [][TNext]_tvars
